@@ -202,9 +202,13 @@ def user_disconnect_stops_everything(cls, t):
     tr = ghost("T")
     assert tr[-1] == "transport_stop"
     assert "hb_stop" in tr and states(tr)[0] == S.DISCONNECTED and S.CONNECTED not in states(tr) and S.CONNECTING not in states(tr)
+    reqs = [x for x in tr if isinstance(x, tuple) and x[0] == "disconnect_request"]
     if old is not None:
         assert old.cancelled
-    reqs = [x for x in tr if isinstance(x, tuple) and x[0] == "disconnect_request"]
+        # ... and before anything is awaited: while disconnect() waits for the DisconnectResponse a still
+        # running reconnect task would go on connecting
+        if reqs:
+            assert tr.index(("task_cancel", old)) < tr.index(reqs[0])
     assert reqs == ([("disconnect_request", channel)] if channel is not None else [])
     if not failed:
         assert t.communication_channel is None
